@@ -42,6 +42,37 @@ class Monitor:
     def finish(self, run): ...
 
 
+class TimeBudgetProbe(Monitor):
+    """Probe only: did a wall-time budget legitimately bind in this run?  (Local-search phases have a time budget;
+    a run in which a phase used up its own budget may legally depend on the speed of the machine.)"""
+
+    def on_setup(self, run):
+        import time
+
+        import pynguin.configuration as config
+        from pynguin.testcase.localsearchtimer import LocalSearchTimer
+
+        orig_start, orig_limit = LocalSearchTimer.start_timer, LocalSearchTimer.limit_reached
+
+        def start_timer(self_t):
+            self_t._verif_phase_start_s = int(time.perf_counter())  # noqa: SLF001
+            run.probe("local_search_phases")
+            return orig_start(self_t)
+
+        def limit_reached(self_t):
+            r = orig_limit(self_t)
+            if r:
+                run.probe("local_search_limit_reported")
+                own = getattr(self_t, "_verif_phase_start_s", None)
+                budget = config.configuration.local_search.local_search_time
+                if own is not None and int(time.perf_counter()) * 1000 > own * 1000 + budget:
+                    run.probe("local_search_phase_used_up_its_own_budget")
+            return r
+
+        run.patch(LocalSearchTimer, "start_timer", start_timer)
+        run.patch(LocalSearchTimer, "limit_reached", limit_reached)
+
+
 def _call_site():
     """First pynguin frame (outside utils/randomness.py) below an RNG draw, plus its caller."""
     f = sys._getframe(2)
@@ -101,8 +132,10 @@ class PipelineRun:
         self.hist = History(keep=10**7 if case.get('return_hist') else 200)
         self.clock = SimClock()
         self.clock.tick_on_read_ns = 0  # reads must not move time: lazily initialised code reads the clock a different number of times per process
-        self.draw_cost_ns = case.get("draw_cost_ns", 200_000)
-        self.exec_cost_ns = case.get("exec_cost_ns", 2_000_000)
+        # "machine speed": every simulated cost (per RNG draw, per execution, per traced line) scaled by one factor
+        self.speed = case.get("speed", 1)
+        self.draw_cost_ns = case.get("draw_cost_ns", 200_000) * self.speed
+        self.exec_cost_ns = case.get("exec_cost_ns", 2_000_000) * self.speed
         self.draws = 0
         self.draw_hash = hashlib.sha256()
         self.draw_log = [] if case.get("log_draws") else None
@@ -116,6 +149,8 @@ class PipelineRun:
         self.exec_log = [] if case.get("log_execs") else None
         self.timeout_p = case.get("timeout_p", 0.0)
         self.injected_timeouts = 0
+        self.timeout_codes: set = set()  # test code (hash) whose execution ended as a timeout / that completed
+        self.ok_codes: set = set()
         self.executions = 0
         self.iterations = 0
         self.probes: dict[str, int] = {}
@@ -233,7 +268,7 @@ class PipelineRun:
             pass
         sch = Scheduler(self.clock, Decisions(simkit.HRandom(simkit.derive_seed(self.case["run_seed"], "sched"))),
                         policy="time_driven", history=self.hist,
-                        sut_line_cost_ns=self.case.get("line_cost_ns", 20_000), max_yields=30_000_000)
+                        sut_line_cost_ns=self.case.get("line_cost_ns", 20_000) * self.speed, max_yields=30_000_000)
         sut_dir = str(simkit.SUT_DIR) + os.sep
 
         mutant_filename = self.case["module"]  # mutated modules are compiled with the bare module name as filename
@@ -275,10 +310,19 @@ class PipelineRun:
                     res = ExecutionResult(timeout=True)
                     self_ex._after_remote_test_case_execution(test_case, res)
             if res is None:
-                res = orig_execute(self_ex, test_case)
+                try:
+                    res = orig_execute(self_ex, test_case)
+                finally:
+                    # whatever is still running when execute() returns was given up by the executor (Python threads
+                    # cannot be killed): from now on it only gets the slices an abandoned thread gets
+                    if run.sched.mark_abandoned():
+                        run.probe("threads_abandoned_after_timeout")
             tr = res.execution_trace
             if res.timeout:
                 run.probe("timeouts_seen")
+                run.timeout_codes.add(hashlib.sha256(code.encode()).hexdigest()[:12])
+            else:
+                run.ok_codes.add(hashlib.sha256(code.encode()).hexdigest()[:12])
             sig = (res.timeout, sorted((k, type(v).__name__) for k, v in res.exceptions.items()),
                    sorted(tr.covered_line_ids), sorted(tr.executed_code_objects),
                    sorted(tr.executed_predicates.items()), sorted(tr.true_distances.items()),
